@@ -890,6 +890,7 @@ class _Inliner:
     def __init__(self, tree, external=None):
         self.tree = tree
         self.external = {}      # private methods of classes of other modules
+        self.class_helpers = {}  # (class, name) -> (fn, kind, body, is classmethod)
         self.helpers = {}       # name -> (fn, kind, body, is_method, owner class or None)
         for node in tree.body:
             if isinstance(node, ast.FunctionDef) and self._private(node.name):
@@ -903,6 +904,18 @@ class _Inliner:
                         k, b = _helper_kind(sub)
                         if k:
                             self.helpers[sub.name] = (sub, k, b, True)
+                    # constructors and other class-level functions of a private class:
+                    # _Cls.make(...) is inlined with cls standing for the class
+                    if isinstance(sub, ast.FunctionDef) and self._private(node.name) \
+                            and len(sub.decorator_list) == 1 \
+                            and _unparse(sub.decorator_list[0]) in ("classmethod",
+                                                                     "staticmethod"):
+                        plain = copy.copy(sub)
+                        plain.decorator_list = []
+                        k, b = _helper_kind(plain)
+                        if k:
+                            is_cm = _unparse(sub.decorator_list[0]) == "classmethod"
+                            self.class_helpers[(node.name, sub.name)] = (plain, k, b, is_cm)
         own = {n.name for n in ast.walk(tree) if isinstance(n, ast.FunctionDef)}
         for name, fn in (external or {}).items():
             if name not in own:
@@ -923,10 +936,17 @@ class _Inliner:
                 and f.value.id == "self" and f.attr in self.helpers and self.helpers[f.attr][3]:
             return self.helpers[f.attr]
         if isinstance(f, ast.Attribute) and isinstance(f.value, ast.Name) \
+                and (f.value.id, f.attr) in self.class_helpers:
+            h = self.class_helpers[(f.value.id, f.attr)]
+            self._receiver = f.value if h[3] else None
+            self._receiver_param = "cls"
+            return h
+        if isinstance(f, ast.Attribute) and isinstance(f.value, ast.Name) \
                 and f.value.id != "self" and f.attr in self.external:
             # obj._name(...): a private method of a class defined in another module
             h = self.external[f.attr]
             self._receiver = f.value
+            self._receiver_param = "self"
             return h
         return None
 
@@ -1236,9 +1256,10 @@ class _Inliner:
                     targets=[ast.Name(id=nm, ctx=ast.Store())], value=mapping[p]), at))
                 mapping[p] = ast.Name(id=nm, ctx=ast.Load())
         mapping.update(self.fresh(body, list(m)))
-        if fn.name in self.external and self.external[fn.name][0] is fn \
-                and getattr(self, "_receiver", None) is not None:
-            mapping["self"] = copy.deepcopy(self._receiver)
+        if getattr(self, "_receiver", None) is not None and (
+                (fn.name in self.external and self.external[fn.name][0] is fn)
+                or any(v[0] is fn for v in self.class_helpers.values())):
+            mapping[getattr(self, "_receiver_param", "self")] = copy.deepcopy(self._receiver)
         new = [_Subst(mapping).visit(copy.deepcopy(s)) for s in body]
         for s in pre + new:
             ast.fix_missing_locations(s)
@@ -1287,6 +1308,11 @@ class _Inliner:
                 if len(body) > 1 and self.depth:
                     return node         # temporaries cannot be hoisted out of a comprehension
                 mapping = dict(m)
+                if getattr(inl, "_receiver", None) is not None and (
+                        (fn.name in inl.external and inl.external[fn.name][0] is fn)
+                        or any(v[0] is fn for v in inl.class_helpers.values())):
+                    mapping[getattr(inl, "_receiver_param", "self")] = copy.deepcopy(
+                        inl._receiver)
                 stores = {n.id for s in body for n in ast.walk(s)
                           if isinstance(n, ast.Name) and isinstance(n.ctx, ast.Store)}
                 if stores & set(m):
@@ -1547,8 +1573,53 @@ def _unappend_aliases(fn):
     return changed
 
 
+def _prefer_user_names(fn):
+    """T = G where G is a local generated by the inliner (bound once) and T is bound only here:
+    G *is* T -- the generated name is renamed and the copy dropped"""
+    stores = {}
+    for n in ast.walk(fn):
+        if isinstance(n, ast.Name) and isinstance(n.ctx, (ast.Store, ast.Del)):
+            stores[n.id] = stores.get(n.id, 0) + 1
+    params = {a.arg for a in fn.args.args + fn.args.kwonlyargs}
+    changed = False
+    for st in [n for n in ast.walk(fn) if isinstance(n, ast.Assign)]:
+        if len(st.targets) == 1 and isinstance(st.targets[0], ast.Name) \
+                and isinstance(st.value, ast.Name):
+            T, G = st.targets[0].id, st.value.id
+            if _generated(G) and not _generated(T) and stores.get(G) == 1 \
+                    and stores.get(T) == 1 \
+                    and T not in params and G not in params:
+                for n in ast.walk(fn):
+                    if isinstance(n, ast.Name) and n.id == G:
+                        n.id = T
+                stores[T] = 2           # (now bound twice: by the definition and the copy)
+                changed = True
+    if changed:
+        def drop(block):
+            out = []
+            for st in block:
+                if isinstance(st, ast.Assign) and len(st.targets) == 1 \
+                        and isinstance(st.targets[0], ast.Name) \
+                        and isinstance(st.value, ast.Name) \
+                        and st.value.id == st.targets[0].id:
+                    continue
+                for field in ("body", "orelse", "finalbody"):
+                    b = getattr(st, field, None)
+                    if isinstance(b, list) and b and isinstance(b[0], ast.stmt):
+                        nb = drop(b)
+                        setattr(st, field, nb or [ast.copy_location(ast.Pass(), st)])
+                for h in getattr(st, "handlers", []) or []:
+                    h.body = drop(h.body) or [ast.copy_location(ast.Pass(), h)]
+                out.append(st)
+            return out
+        fn.body = drop(fn.body)
+    return changed
+
+
 def propagate_all(tree):
     for fn in [n for n in ast.walk(tree) if isinstance(n, ast.FunctionDef)]:
+        if _prefer_user_names(fn):
+            renumber(tree)
         if _unappend_aliases(fn):
             renumber(tree)
         for _ in range(60):
@@ -1750,6 +1821,11 @@ def simplify_block(block, facts=None):
 # B: constants and plain aliases are propagated forward inside each block (the definitions
 # stay, so nothing depends on liveness); values merge after branches when they agree
 # ---------------------------------------------------------------------------------------------
+def _generated(name):
+    """names introduced by the rewriter (inlined locals x__h3, record fields rec__field, ...)"""
+    return "__" in name.strip("_")
+
+
 def _prop_value(e):
     if isinstance(e, ast.Constant) and (e.value is None or isinstance(
             e.value, (str, int, float, bool))) and not isinstance(e.value, bytes):
@@ -1859,7 +1935,10 @@ def block_propagate(block, env=None):
         env = _kill(env, stored)
         if isinstance(st, ast.Assign) and len(st.targets) == 1 \
                 and isinstance(st.targets[0], ast.Name) and _prop_value(st.value) \
-                and not (isinstance(st.value, ast.Name) and st.value.id == st.targets[0].id):
+                and not (isinstance(st.value, ast.Name) and st.value.id == st.targets[0].id) \
+                and not (isinstance(st.value, ast.Name) and _generated(st.value.id)
+                         and not _generated(st.targets[0].id)):
+            # (a name written by the author is not replaced by one the inliner generated)
             env[st.targets[0].id] = st.value
         if isinstance(st, (ast.Global, ast.Nonlocal)):
             env = _kill(env, set(st.names))
@@ -2091,6 +2170,23 @@ def _namedtuple_classes(tree):
                 fields = f.value.replace(",", " ").split()
             if fields:
                 out[st.targets[0].id] = fields
+        elif isinstance(st, ast.ClassDef):
+            deco = [_unparse(d.func if isinstance(d, ast.Call) else d) for d in st.decorator_list]
+            bases = [_unparse(b) for b in st.bases]
+            is_dc = any(d in ("dataclass", "dataclasses.dataclass") for d in deco) and not bases
+            is_nt = any(b in ("NamedTuple", "typing.NamedTuple") for b in bases)
+            if not (is_dc or is_nt):
+                continue
+            if any(isinstance(m, ast.FunctionDef) and m.name in (
+                    "__init__", "__post_init__", "__new__", "__getattr__", "__setattr__")
+                    for m in st.body):
+                continue
+            fields = [m.target.id for m in st.body if isinstance(m, ast.AnnAssign)
+                      and isinstance(m.target, ast.Name)]
+            # no field may be shadowed by a method / property of the same class
+            names = {m.name for m in st.body if isinstance(m, ast.FunctionDef)}
+            if fields and not (set(fields) & names):
+                out[st.name] = fields
     return out
 
 
